@@ -37,6 +37,12 @@ impl ParseError {
     pub uninterp spec fn is_fatal_spec(&self) -> bool;
     #[verifier::external_body]
     pub fn is_fatal(&self) -> (r: bool) ensures r == self.is_fatal_spec() { unimplemented!() }
+    // an unexpected EOF is never fatal
+    #[verifier::external_body]
+    pub fn is_eof(&self) -> (r: bool) ensures r ==> !self.is_fatal_spec() { unimplemented!() }
+    // bad formatting: never fatal
+    #[verifier::external_body]
+    pub fn format<T>(err: T) -> (r: ParseError) ensures !r.is_fatal_spec() { unimplemented!() }
 }
 
 // ---- paths ---------------------------------------------------------------------------
@@ -45,7 +51,47 @@ pub struct PathBuf { pub p: Path }
 impl PathBuf {
     #[verifier::external_body]
     pub fn parent(&self) -> (r: Option<&Path>) { unimplemented!() }
+    #[verifier::external_body]
+    pub fn join(&self, name: &str) -> (r: PathBuf) { unimplemented!() }
+    #[verifier::external_body]
+    pub fn as_path(&self) -> (r: &Path) ensures *r == self.p { unimplemented!() }
 }
+impl std::ops::Deref for PathBuf {
+    type Target = Path;
+    #[verifier::external_body]
+    fn deref(&self) -> (r: &Path) ensures *r == self.p { unimplemented!() }
+}
+impl Clone for PathBuf {
+    #[verifier::external_body]
+    fn clone(&self) -> (r: PathBuf) ensures r == *self { unimplemented!() }
+}
+impl Path {
+    #[verifier::external_body]
+    pub fn exists(&self) -> (r: bool) { unimplemented!() }
+    #[verifier::external_body]
+    pub fn parent(&self) -> (r: Option<&Path>) { unimplemented!() }
+    #[verifier::external_body]
+    pub fn to_path_buf(&self) -> (r: PathBuf) ensures r.p == *self { unimplemented!() }
+}
+// Path-level primitives that would change a stored point file outside the step discipline of
+// File::create / header write / persist. Their permission cannot be established in this unit,
+// so a use of them in the functions under contract is reported.
+pub uninterp spec fn may_replace(target: Path) -> bool;
+#[verifier::external_body]
+pub fn fs_rename(from: &Path, to: &Path) -> (r: Result<(), IoError>) requires may_replace(*to) { unimplemented!() }
+#[verifier::external_body]
+pub fn fatal_rename(from: &Path, to: &Path) -> (r: Result<(), Failed>) requires may_replace(*to) { unimplemented!() }
+#[verifier::external_body]
+pub fn fs_copy(from: &Path, to: &Path) -> (r: Result<u64, IoError>) requires may_replace(*to) { unimplemented!() }
+#[verifier::external_body]
+pub fn fs_write(path: &Path, contents: &[u8]) -> (r: Result<(), IoError>) requires may_replace(*path) { unimplemented!() }
+#[verifier::external_body]
+pub fn fatal_write_file(path: &Path, contents: &[u8]) -> (r: Result<(), Failed>) requires may_replace(*path) { unimplemented!() }
+// Removing a point file leaves "no file", which open reads as a new point: allowed.
+#[verifier::external_body]
+pub fn fs_remove_file(path: &Path) -> (r: Result<(), IoError>) { unimplemented!() }
+#[verifier::external_body]
+pub fn fatal_remove_file(path: &Path) -> (r: Result<(), Failed>) { unimplemented!() }
 #[verifier::external_body]
 pub fn fatal_create_dir_all(path: &Path) -> (r: Result<(), Failed>)
     ensures r is Err ==> io_failure(),
@@ -72,8 +118,11 @@ pub uninterp spec fn disk(p: Path) -> Option<Seq<u8>>;
 #[verifier::external_body] pub struct File { _opaque: () }
 impl File {
     pub uninterp spec fn content(&self) -> Seq<u8>;
+    // The step model treats writes as appends: repositioning is only admitted on an empty
+    // (just created) file; overwriting a non-empty file in place is reported.
     #[verifier::external_body]
     pub fn seek(&mut self, to: SeekFrom) -> (r: Result<u64, IoError>)
+        requires old(self).content().len() == 0,
         ensures final(self).content() == old(self).content(), r is Err ==> io_failure(),
     { unimplemented!() }
 }
@@ -88,7 +137,86 @@ impl BufReader<File> {
         ensures r.inner() == file, r.pos() == 0,
     { unimplemented!() }
 }
+impl BufReader<File> {
+    #[verifier::external_body]
+    pub fn get_ref(&self) -> (r: &File) ensures *r == self.inner() { unimplemented!() }
+    #[verifier::external_body]
+    pub fn into_inner(self) -> (r: File) ensures r == self.inner() { unimplemented!() }
+    #[verifier::external_body]
+    pub fn seek(&mut self, to: SeekFrom) -> (r: Result<u64, IoError>)
+        ensures final(self).inner() == old(self).inner(),
+                r is Ok ==> (to matches SeekFrom::Start(n) ==> final(self).pos() == n as int),
+    { unimplemented!() }
+}
 impl IoRead for BufReader<File> {
     open spec fn remaining(&self) -> Seq<u8> { self.inner().content().skip(self.pos()) }
 }
 pub assume_specification<T: core::marker::Destruct> [std::mem::drop] (_0: T);
+// ---- std functions without a vstd specification (ASSUMED: their std definitions).
+// Declared so that a refactoring that starts using one of them is verified, not rejected.
+pub assume_specification<T: Ord + core::marker::Destruct> [std::cmp::min] (a: T, b: T) -> (r: T)
+    ensures <T as vstd::std_specs::cmp::OrdSpec>::obeys_cmp_spec() ==> r == (if vstd::std_specs::cmp::OrdSpec::cmp_spec(&b, &a) == std::cmp::Ordering::Less { b } else { a }),
+;
+pub assume_specification<T: Ord + core::marker::Destruct> [std::cmp::max] (a: T, b: T) -> (r: T)
+    ensures <T as vstd::std_specs::cmp::OrdSpec>::obeys_cmp_spec() ==> r == (if vstd::std_specs::cmp::OrdSpec::cmp_spec(&b, &a) == std::cmp::Ordering::Less { a } else { b }),
+;
+pub assume_specification [std::cmp::Ordering::is_lt] (o: std::cmp::Ordering) -> (r: bool)
+    ensures r == (o == std::cmp::Ordering::Less);
+pub assume_specification [std::cmp::Ordering::is_gt] (o: std::cmp::Ordering) -> (r: bool)
+    ensures r == (o == std::cmp::Ordering::Greater);
+pub assume_specification [std::cmp::Ordering::is_le] (o: std::cmp::Ordering) -> (r: bool)
+    ensures r == (o != std::cmp::Ordering::Greater);
+pub assume_specification [std::cmp::Ordering::is_ge] (o: std::cmp::Ordering) -> (r: bool)
+    ensures r == (o != std::cmp::Ordering::Less);
+pub assume_specification<T: core::marker::Destruct> [bool::then_some] (b: bool, t: T) -> (r: Option<T>)
+    ensures r == (if b { Some(t) } else { None::<T> });
+pub assume_specification<T: core::marker::Destruct> [std::option::Option::<T>::xor] (a: Option<T>, b: Option<T>) -> (r: Option<T>)
+    ensures r == (match (a, b) { (Some(x), None) => Some(x), (None, Some(y)) => Some(y), _ => None::<T> });
+pub assume_specification<'a, T: Copy> [std::option::Option::<&T>::copied] (o: Option<&'a T>) -> (r: Option<T>)
+    ensures r == (match o { Some(x) => Some(*x), None => None::<T> });
+pub assume_specification<T: core::marker::Destruct> [std::option::Option::<T>::or] (a: Option<T>, b: Option<T>) -> (r: Option<T>)
+    ensures r == (if a is Some { a } else { b });
+pub assume_specification<T: core::marker::Destruct, U: core::marker::Destruct> [std::option::Option::<T>::and] (a: Option<T>, b: Option<U>) -> (r: Option<U>)
+    ensures r == (if a is Some { b } else { None::<U> });
+pub assume_specification<T: core::marker::Destruct, U: core::marker::Destruct> [std::option::Option::<T>::zip] (a: Option<T>, b: Option<U>) -> (r: Option<(T, U)>)
+    ensures r == (match (a, b) { (Some(x), Some(y)) => Some((x, y)), _ => None::<(T, U)> });
+pub assume_specification<T, F: FnOnce(T) -> bool + core::marker::Destruct> [std::option::Option::<T>::is_some_and] (o: Option<T>, f: F) -> (r: bool)
+    requires o matches Some(x) ==> f.requires((x,)),
+    ensures match o { Some(x) => f.ensures((x,), r), None => !r };
+pub assume_specification<T, F: FnOnce(T) -> bool + core::marker::Destruct> [std::option::Option::<T>::is_none_or] (o: Option<T>, f: F) -> (r: bool)
+    requires o matches Some(x) ==> f.requires((x,)),
+    ensures match o { Some(x) => f.ensures((x,), r), None => r };
+pub assume_specification<T: core::marker::Destruct, P: FnOnce(&T) -> bool + core::marker::Destruct> [std::option::Option::<T>::filter] (o: Option<T>, p: P) -> (r: Option<T>)
+    requires o matches Some(x) ==> p.requires((&x,)),
+    ensures match o { Some(x) => (r == Some(x) && p.ensures((&x,), true)) || (r is None && p.ensures((&x,), false)), None => r is None };
+pub assume_specification<T: core::marker::Destruct, F: FnOnce() -> Option<T> + core::marker::Destruct> [std::option::Option::<T>::or_else] (o: Option<T>, f: F) -> (r: Option<T>)
+    requires o is None ==> f.requires(()),
+    ensures match o { Some(x) => r == o, None => f.ensures((), r) };
+pub assume_specification<T, U: core::marker::Destruct, F: FnOnce(T) -> U + core::marker::Destruct> [std::option::Option::<T>::map_or] (o: Option<T>, d: U, f: F) -> (r: U)
+    requires o matches Some(x) ==> f.requires((x,)),
+    ensures match o { Some(x) => f.ensures((x,), r), None => r == d };
+pub assume_specification<T, U, D: FnOnce() -> U + core::marker::Destruct, F: FnOnce(T) -> U + core::marker::Destruct> [std::option::Option::<T>::map_or_else] (o: Option<T>, d: D, f: F) -> (r: U)
+    requires o matches Some(x) ==> f.requires((x,)), o is None ==> d.requires(()),
+    ensures match o { Some(x) => f.ensures((x,), r), None => d.ensures((), r) };
+pub assume_specification<T: core::marker::Destruct, E: core::marker::Destruct> [std::result::Result::<T, E>::unwrap_or] (x: Result<T, E>, d: T) -> (r: T)
+    ensures r == (match x { Ok(v) => v, Err(_) => d });
+pub assume_specification<T, E: core::marker::Destruct, F: core::marker::Destruct> [std::result::Result::<T, E>::or] (a: Result<T, E>, b: Result<T, F>) -> (r: Result<T, F>)
+    ensures match a { Ok(v) => r == Ok::<T, F>(v), Err(_) => r == b };
+pub assume_specification<T, E, U, F: FnOnce(T) -> Result<U, E> + core::marker::Destruct> [std::result::Result::<T, E>::and_then] (x: Result<T, E>, f: F) -> (r: Result<U, E>)
+    requires x matches Ok(v) ==> f.requires((v,)),
+    ensures match x { Ok(v) => f.ensures((v,), r), Err(e) => r == Err::<U, E>(e) };
+pub assume_specification<T, E: core::marker::Destruct, F: FnOnce(T) -> bool + core::marker::Destruct> [std::result::Result::<T, E>::is_ok_and] (x: Result<T, E>, f: F) -> (r: bool)
+    requires x matches Ok(v) ==> f.requires((v,)),
+    ensures match x { Ok(v) => f.ensures((v,), r), Err(_) => !r };
+pub assume_specification<T, E, F: FnOnce(E) -> T + core::marker::Destruct> [std::result::Result::<T, E>::unwrap_or_else] (x: Result<T, E>, f: F) -> (r: T)
+    requires x matches Err(e) ==> f.requires((e,)),
+    ensures match x { Ok(v) => r == v, Err(e) => f.ensures((e,), r) };
+pub assume_specification<T> [std::mem::replace] (dest: &mut T, src: T) -> (r: T)
+    ensures r == *old(dest), *final(dest) == src;
+pub assume_specification<T: Default + core::marker::Destruct, E: core::marker::Destruct> [std::result::Result::<T, E>::unwrap_or_default] (x: Result<T, E>) -> (r: T)
+    ensures x matches Ok(v) ==> r == v;
+pub assume_specification<T, E, U: core::marker::Destruct, F: FnOnce(T) -> U + core::marker::Destruct> [std::result::Result::<T, E>::map_or] (x: Result<T, E>, d: U, f: F) -> (r: U)
+    requires x matches Ok(v) ==> f.requires((v,)),
+    ensures match x { Ok(v) => f.ensures((v,), r), Err(_) => r == d };
+pub assume_specification [<std::cmp::Ordering as PartialEq>::eq] (a: &std::cmp::Ordering, b: &std::cmp::Ordering) -> (r: bool)
+    ensures r == (*a == *b);
